@@ -25,7 +25,7 @@ ASSUMPTIONS = [C.GRID_NOTE]
 REQUIRED_SITES = {"divr.eq": 100, "divr.less.narrow": 100, "divr.less.wide": 100,
                   "shdm.neg_pos": 50, "shdm.exact_neg": 20, "shdm.none": 20, "round_quot.tie": 50,
                   "round_quot.overflow": 2, "knuth": 100, "idiv64": 100,
-                  "knuth.q1.rhat_eq_b": 20, "knuth.q0.rhat_eq_b": 20}
+                  "knuth.q1.rhat_eq_b": 20, "knuth.q0.rhat_eq_b": 20, "knuth.q0.est_gt_b": 5}
 BUDGET = {"quick": 25, "thorough": 300}
 N_RANDOM = {"quick": 1500, "thorough": 5000}
 
